@@ -57,6 +57,10 @@ var c13TagTypes = []struct {
 	{"pkg/resilience/retry.go", []string{"RetryPolicy"}},
 	{"pkg/resilience/circuitbreaker.go", []string{"CircuitBreakerPolicy"}},
 	{"pkg/object/pipeline/pipeline.go", []string{"Spec", "FlowNode"}},
+	// objects (extension pipe): GlobalFilter, HTTPServer at mux level
+	{"pkg/object/globalfilter/globalfilter.go", []string{"Spec"}},
+	{"pkg/object/httpserver/spec.go", []string{"Spec", "Rule", "Path", "Header"}},
+	{"pkg/util/ipfilter/ipfilter.go", []string{"Spec"}},
 }
 
 var c13KindFiles = []string{
